@@ -169,7 +169,9 @@ class Deliver(Part):
     family = "deliver"
     exec_module = "DeliverExec"
     parallel = False        # the runs are timing-sensitive enough: one at a time
-    branch_names = {1: "several_senders", 2: "crosses_batch_bound_4096", 3: "over_300_consecutive_batches"}
+    branch_names = {1: "several_senders", 2: "crosses_batch_bound_4096", 3: "over_300_consecutive_batches",
+                    4: "restarts_with_senders_active"}
+    restart_only = False
 
     def generate(self, rng, tier):
         cs = [dict(mode="chain", total=350), dict(mode="chain", total=1000),
@@ -178,6 +180,18 @@ class Deliver(Part):
               dict(mode="multi", senders=8, per_sender=200, inbox_size=3),
               dict(mode="multi", senders=2, per_sender=2500, inbox_size=1),
               dict(mode="multi", senders=3, per_sender=300, inbox_size=2, via_actor=True)]
+        restart = [dict(mode="multi", senders=3, per_sender=150, inbox_size=1, panic_at=[[0, 20], [1, 90]],
+                        restart_delay_ms=25, handler_micros=150, pace_micros=300),
+                   dict(mode="multi", senders=2, per_sender=250, inbox_size=2, panic_at=[[1, 10]],
+                        restart_delay_ms=40, handler_micros=100, pace_micros=250)]
+        if self.restart_only:
+            cs = restart
+            if tier == "thorough":
+                cs = cs + [dict(mode="multi", senders=rng.randint(2, 4), per_sender=200, inbox_size=rng.randint(1, 3),
+                                panic_at=[[0, rng.randint(5, 60)], [1, rng.randint(61, 150)]], restart_delay_ms=rng.choice([10, 30, 60]),
+                                handler_micros=rng.choice([50, 200]), pace_micros=rng.choice([100, 400])) for _ in range(6)]
+            return [{"input": c, "class": "restart"} for c in cs]
+        cs += restart
         if tier == "thorough":
             cs += [dict(mode="multi", senders=8, per_sender=3000, inbox_size=1),
                    dict(mode="multi", senders=4, per_sender=3000, inbox_size=5, via_actor=True),
@@ -189,10 +203,17 @@ class Deliver(Part):
     def to_coq(self, inp, obs):
         senders = inp.get("senders", 1)
         per = inp.get("per_sender", inp.get("total", 0))
-        return "{| c_senders := %s; c_per_sender := %s; c_got := %s; c_hang := %s |}" % (
+        return "{| c_senders := %s; c_per_sender := %s; c_got := %s; c_hang := %s; c_overlap := %s; c_restarts := %s |}" % (
             C.cnat(senders), C.cnat(per),
             C.clist(["{| g_from := %s; g_seq := %s; g_sender_ok := %s |}" % (C.cnat(g[0]), C.cnat(min(g[1], 4999)), C.cbool(g[2] == 1))
-                     for g in obs["got"]]), C.cbool(obs["hang"]))
+                     for g in obs["got"]]), C.cbool(obs["hang"]), C.cbool(obs.get("overlap", False)),
+            C.cnat(len(inp.get("panic_at", []))))
 
     def describe_obs(self, obs):
-        return {"received": len(obs["got"]), "hang": obs["hang"], "first": obs["got"][:6]}
+        return {"received": len(obs["got"]), "hang": obs["hang"], "overlap": obs.get("overlap"), "first": obs["got"][:6]}
+
+
+class DeliverRestart(Deliver):
+    """only the restart scenarios (senders stay active during the restart delay)"""
+    name = "engine_restart"
+    restart_only = True
